@@ -139,6 +139,7 @@ class ExprMixin:
         if isinstance(base, VRef):
             obj = st.heap.get(base.oid)
             if obj is not None and attr in obj: return obj[attr]
+            if obj is not None and "$a" in obj: return self.ext["arr_attr"](self, base, attr, st, node)
             h = self.contracts.get((base.cls, "@" + attr))
             if h is not None: return h(self, base, [], {}, st)
             found = self.w.lookup(base.cls, attr)
@@ -232,7 +233,11 @@ class ExprMixin:
         a, b = self.ev(n.left, st), self.ev(n.right, st)
         return self.binop(n.op, a, b, st, n)
 
+    def is_arr(self, st, v): return isinstance(v, VRef) and "$a" in st.heap.get(v.oid, {})
+
     def binop(self, op, a, b, st, n=None):
+        if self.is_arr(st, a) or self.is_arr(st, b):
+            return self.ext["arr_binop"](self, op, a, b, st, n)
         if isinstance(a, VPoint) or isinstance(b, VPoint):
             name = {ast.Add: "__add__", ast.Sub: "__sub__", ast.Mult: "__mul__", ast.Div: "__truediv__"}.get(type(op))
             if name is None: raise Unsupported("point binop")
@@ -408,6 +413,7 @@ class ExprMixin:
         if isinstance(v, VRef):
             obj = st.heap.get(v.oid, {})
             if "$l" in obj: return list(obj["$l"].items)
+            if "$a" in obj: return [c if not isinstance(c, list) else st.alloc("ndarray", {"$a": list(c)}) for c in obj["$a"]]
         raise Unsupported(f"unpack {type(v).__name__} @ {self.where(node)}")
 
     def e_Dict(self, n, st):
@@ -484,6 +490,7 @@ class ExprMixin:
 
     def e_Subscript(self, n, st):
         base = self.ev(n.value, st)
+        if self.is_arr(st, base): return self.ext["arr_load"](self, base, n.slice, st, n)
         if isinstance(n.slice, ast.Slice):
             lo = self.ev(n.slice.lower, st) if n.slice.lower else None
             hi = self.ev(n.slice.upper, st) if n.slice.upper else None
